@@ -115,6 +115,7 @@ func (s *scRebal) Configure(w *World) {
 		c.QuiesceBudget += 100 * time.Second
 	case "C16r":
 		c.W.Scrape = 3
+		c.W.API = 2
 	}
 	w.buildCluster()
 }
